@@ -8,3 +8,10 @@ claim('C01', 'Lean 4 refinement proof (bit packer = specified bit string, field 
       'string (sizes 1..inf, any alignment/endianness), reserved size = emitted size, field order = documented order under '
       'both reverse options. Each run re-validates the model against the real CLI on generated ISAs/statements.',
       NOTE + ' Operand text -> (code, argument) mapping per operand type is produced by the generator.')
+
+claim('C12', 'Lean 4 decision-logic proofs (accept iff constraint holds, exact emitted value, width fit) + differential correspondence',
+      'Kernel-checked theorems: each constraint kind (min/max, numeric enumeration, zone membership, sliced address MSB match, '
+      'relative offset from start/end, signed-or-unsigned width fit for every width) accepts exactly the satisfying values and '
+      'emits the documented value; a whole statement is assembled iff every constraint holds, otherwise rejected. Each run '
+      'drives the real CLI with values on and adjacent to every boundary and compares with the model.',
+      NOTE + ' Operand text -> constraint kind mapping is produced by the generator.')
